@@ -1,6 +1,6 @@
 /* recording helper for exec / command checks: writes, into a fresh directory under
  * $VERIF_HELPER_OUT, its argv (NUL separated), everything readable on stdin, the list of open
- * descriptors with their targets (descriptor inheritance), then exits as $VERIF_HELPER_EXIT says
+ * descriptors with their targets (descriptor inheritance), its environment and working directory, then exits as $VERIF_HELPER_EXIT says
  * ("N" = exit status N, "sigN" = kill itself with signal N; argv[1] of the form "exit=N"/"sig=N" wins). */
 #define _GNU_SOURCE
 #include <dirent.h>
@@ -52,6 +52,18 @@ int main(int argc, char **argv) {
 	f = fopen(path, "w");
 	for (i = 0; i < argc; i++) { fwrite(argv[i], 1, strlen(argv[i]) + 1, f); }
 	fclose(f);
+	{
+		extern char **environ;
+		char **ep, cwd[4096];
+		snprintf(path, sizeof path, "%s/environ", dir);
+		f = fopen(path, "w");
+		for (ep = environ; *ep != NULL; ep++) { fwrite(*ep, 1, strlen(*ep) + 1, f); }
+		fclose(f);
+		snprintf(path, sizeof path, "%s/cwd", dir);
+		f = fopen(path, "w");
+		if (getcwd(cwd, sizeof cwd) != NULL) fputs(cwd, f);
+		fclose(f);
+	}
 	snprintf(path, sizeof path, "%s/stdin", dir);
 	fd = open(path, O_WRONLY | O_CREAT | O_TRUNC, 0600);
 	{
